@@ -6,7 +6,9 @@ from hypothesis import strategies as st
 
 from .. import gen, loader
 from ..engine import Outcome, Prop, compare
-from ..render import render_script
+import re
+
+from ..render import render_parts, render_script
 
 
 @st.composite
@@ -29,7 +31,8 @@ def table(draw, idx, max_cols):
 def case_strategy(draw, max_tables, max_cols):
     nt = draw(st.integers(1, max_tables))
     tables = [draw(table(i, max_cols)) for i in range(nt)]
-    return {"tables": tables, "layout": draw(gen.layout(max_len=60))}
+    # the library also accepts scripts without ';' terminators (a line starting with CREATE opens the next statement)
+    return {"tables": tables, "layout": draw(gen.layout(max_len=60)), "noterm": draw(st.integers(0, 4)) == 0}
 
 
 class C01(Prop):
@@ -61,7 +64,14 @@ class C01(Prop):
                 ("mixed_layout", {"tables": [t, dict(t, name="t_1", schema=None)], "layout": {"sep": [3, 6, 2, 0, 10, 4], "case": [1, 2, 5], "crlf": True, "tail": 2}})]
 
     def build(self, case, stats=None):
-        return render_script([gen.create_table_tokens(t) for t in case["tables"]], case["layout"], stats)
+        stmts = [gen.create_table_tokens(t) for t in case["tables"]]
+        if not case.get("noterm"):
+            return render_script(stmts, case["layout"], stats)
+        stmts = [[t for t in s if t[1] != "E"] if i < len(stmts) - 1 else s for i, s in enumerate(stmts)]
+        parts = render_parts(stmts, case["layout"], stats)
+        # known finding K23: without ';' the first keyword of a statement must not stand alone on its line
+        parts = [re.sub(r"^(\w+)[ \t]*\r?\n\s*", r"\1 ", p) for p in parts]
+        return "".join(parts)
 
     def describe(self, case):
         return {"ddl": self.build(case), "tables": len(case["tables"]), "columns": [len(t["items"]) for t in case["tables"]]}
@@ -72,7 +82,7 @@ class C01(Prop):
         ddl = self.build(case, stats)
         if stats.get("K5K6_coerced"):
             out.label("K5K6_gap_coerced")
-        out.label("tables=%d" % len(case["tables"]), "layout=%s" % ("drawn" if case["layout"] else "canonical"))
+        out.label("tables=%d" % len(case["tables"]), "layout=%s" % ("drawn" if case["layout"] else "canonical"), "terminated=%s" % (not case.get("noterm")))
         for t in case["tables"]:
             n = len(t["items"])
             out.label("cols=%s" % (n if n <= 8 else "9-20" if n <= 20 else "21+"))
